@@ -2,6 +2,7 @@ package main
 
 import (
 	"fmt"
+	"net"
 	"strconv"
 	"strings"
 	"unicode/utf8"
@@ -76,11 +77,11 @@ var fixedLines = []string{
 	"Zexample.com,a.ns.example.com,dns.example.com,0,7200,1800,604800,120,120,,",     // explicit serial 0 (F12)
 	"Zexample.com,a.ns.example.com,dns.example.com,4294967295,0,0,0,0,0,,ab",         // extreme numbers
 	"Zexample.com,a.ns.example.com,dns.example.com,4294967296,7200,1800,604800,120,", // serial out of range -> default
-	"Hexample.com,.,300,,1,ipv6hint=::ffff:1.2.3.4",                                   // F8
-	"Bexample.com,.,300,,1,ipv6hint=2001:db8::1|::ffff:10.0.0.1",                      // F8
-	"H*.example.com,svc.example.com,300,,1,alpn=h2",                                   // wildcard SVCB owner
-	"B*.example.com,*.svc.example.com,300,ab,0",                                       // wildcard SVCB owner and target
-	"&example.com,,a.,3600",                                                           // single-label absolute name server
+	"Hexample.com,.,300,,1,ipv6hint=::ffff:1.2.3.4",                                  // F8
+	"Bexample.com,.,300,,1,ipv6hint=2001:db8::1|::ffff:10.0.0.1",                     // F8
+	"H*.example.com,svc.example.com,300,,1,alpn=h2",                                  // wildcard SVCB owner
+	"B*.example.com,*.svc.example.com,300,ab,0",                                      // wildcard SVCB owner and target
+	"&example.com,,a.,3600", // single-label absolute name server
 	"@example.com,,mail.,10,3600",
 	"Sexample.com,,srv.,1,2,3",
 	"&example.com,1.2.3.4,a",
@@ -251,6 +252,9 @@ func (g *gen) enc(b []byte, raw string) []byte {
 	r := g.r
 	var o []byte
 	oct := func(c byte) { o = append(o, []byte(fmt.Sprintf("\\%03o", c))...) }
+	// a raw byte >= 0x80 that is not part of valid UTF-8 is turned into U+FFFD by Bunquote
+	// whenever the field also holds a backslash: written raw only inside valid UTF-8
+	validUTF8 := utf8.Valid(b)
 	for _, c := range b {
 		switch {
 		case c == '\\':
@@ -275,7 +279,7 @@ func (g *gen) enc(b []byte, raw string) []byte {
 				oct(c)
 			}
 		case c >= 0x80:
-			if r.Chance(1, 2) {
+			if validUTF8 && r.Chance(1, 2) {
 				o = append(o, c)
 			} else {
 				oct(c)
@@ -418,9 +422,9 @@ func (g *gen) txt() []byte {
 			b = append(b, byte(r.Intn(256)))
 		default:
 			{
-			const al = "abcdefghijklmnopqrstuvwxyz =~.-/0123456789"
-			b = append(b, al[r.Intn(len(al))])
-		}
+				const al = "abcdefghijklmnopqrstuvwxyz =~.-/0123456789"
+				b = append(b, al[r.Intn(len(al))])
+			}
 		}
 	}
 	return b
@@ -451,7 +455,7 @@ func (g *gen) assemble(t byte, sep byte, fs []field) []byte {
 			}
 		}
 	}
-	if r.Chance(1, 30) {
+	if r.Chance(1, 30) && t != 'B' && t != 'H' {
 		texts = append(texts[:n], []byte("extra"), []byte("fields"))
 		n += 2
 	}
@@ -465,11 +469,11 @@ func (g *gen) assemble(t byte, sep byte, fs []field) []byte {
 	return line
 }
 
-func f(b []byte) field        { return field{b, false} }
-func opt(b []byte) field      { return field{b, true} }
-func optS(s string) field     { return field{[]byte(s), true} }
-func (g *gen) ttl() field     { return optS(g.num(4294967295, 86400, 2560, 259200)) }
-func (g *gen) unused() field  { return optS([]string{"", "", "", "ts", "12345"}[g.r.Intn(5)]) }
+func f(b []byte) field       { return field{b, false} }
+func opt(b []byte) field     { return field{b, true} }
+func optS(s string) field    { return field{[]byte(s), true} }
+func (g *gen) ttl() field    { return optS(g.num(4294967295, 86400, 2560, 259200)) }
+func (g *gen) unused() field { return optS([]string{"", "", "", "ts", "12345"}[g.r.Intn(5)]) }
 func (g *gen) wild(n []byte) []byte {
 	if g.r.Chance(1, 5) {
 		return append([]byte("*."), n...)
@@ -745,13 +749,11 @@ func (g *gen) file() ([][]byte, bool, string) {
 			netw = fmt.Sprintf("10.%d.%d.0/%d", r.Intn(4), r.Intn(4)<<4, p)
 		}
 		// the same subnet is not declared twice inside one map
-		if _, n, err := parseCIDRorIP(netw); err == nil {
-			k := string(m) + "|" + n
-			if seenNet[k] {
-				continue
-			}
-			seenNet[k] = true
+		k := string(m) + "|" + canonNet(netw)
+		if seenNet[k] {
+			continue
 		}
+		seenNet[k] = true
 		sep := ","
 		ls = append(ls, []byte(fmt.Sprintf("%%%s%s%s%s%s", string(g.enc(g.loc(), "")), sep, netw, sep, string(g.enc(m, "")))))
 	}
@@ -768,13 +770,11 @@ func (g *gen) file() ([][]byte, bool, string) {
 	return ls, true, class
 }
 
-func parseCIDRorIP(s string) (string, string, error) {
-	c := lineCase{}
-	_ = c
-	if i := strings.IndexByte(s, '/'); i >= 0 {
-		return s, s, nil
+func canonNet(s string) string {
+	if _, n, err := net.ParseCIDR(s); err == nil {
+		return n.String()
 	}
-	return s, s + "/host", nil
+	return s + "/host"
 }
 
 // printOracle reports strconv.IsPrint for the runes >= 0x80 of the unquoted fields
